@@ -36,6 +36,13 @@ func DocContains(file *ast.File, s string) bool {
 		if strings.Contains(comment.Text(), s) {
 			return true
 		}
+		// CommentGroup.Text() drops the lines that look like directives (e.g., `//nolint:foo` or
+		// `//nilaway:skip-file`), so we check the raw text of the comments as well.
+		for _, c := range comment.List {
+			if strings.Contains(c.Text, s) {
+				return true
+			}
+		}
 	}
 
 	return false
